@@ -54,7 +54,11 @@ class Log:
         self.events: list[dict] = []
 
     def add(self, kind: str, **kw: Any) -> dict:
-        e = {"kind": kind, "t": CLOCK.now_us(), **kw}
+        try:
+            cur = asyncio.current_task()
+        except RuntimeError:
+            cur = None
+        e = {"kind": kind, "t": CLOCK.now_us(), "tq": getattr(cur, "qualname", None), "tv": getattr(cur, "vid", None), **kw}
         self.events.append(e)
         return e
 
@@ -132,9 +136,12 @@ class RecBroker(InMemoryMessageBroker):
             raise ConnectionError(f"injected failure of {op}")
         tok = _nested.set(_nested.get() + 1)
         try:
-            return await fn()
+            res = await fn()
         finally:
             _nested.reset(tok)
+        if top:
+            self.log.add("broker_done", op=op, id=key.id_, queue=key.queue)
+        return res
 
     async def enqueue(self, key, payload="", params=None):
         return await self._call("enqueue", key, lambda: InMemoryMessageBroker.enqueue(self, key, payload, params), params, payload)
